@@ -265,7 +265,8 @@ impl Interpolation {
             })
             .collect::<Vec<_>>();
 
-        let builder_name = format!("{}_builder", key);
+        // the identifier form of the key: its name may hold `-`.
+        let builder_name = format!("{}_builder", key.ident);
 
         let ident = syn::Ident::new(&builder_name, Span::call_site());
 
